@@ -22,13 +22,22 @@ RULE = ('1-6 route declarations (literals over an alphabet with every regex meta
         'enumeration described in coverage.exhaustive_subruns (gen.EXH_SPACE); histories on ONE long-lived mapper/app: earlier '
         'dispatches whose match dictionary is then mutated, and listings (get_routes(include_static), has_routes, get_route) '
         'before the final dispatch; router mode declares routes inside nested config.include(route_prefix=..) and uses the real '
-        'request_method / xhr / request_param / header predicates, plain and wrapped in not_()')
+        'request_method / xhr / request_param / header predicates, plain and wrapped in not_(); both modes: REAL request_param= '
+        "(forms 'k', 'k=v', 'k=' i.e. present-and-empty, blanks around the halves, '=k=v', several values, negated) and xhr= "
+        'predicates evaluated on requests with a query string (required value given / another / empty / key missing / key twice) and '
+        'X-Requested-With, per history step; custom predicates answering with non-bool truthy / falsy values (None, 0, \'\', (), [], {}, '
+        "0.0 / 1, 'y', (0,), [0], {..}, 1.5, an object); traverse= hybrid routes (TraversePredicate) whose captures contain characters "
+        "URL quoting changes and *remainder tuples, also with a placeholder itself called 'traverse'")
 ASSUMPTIONS = [
     'route patterns are str; {name:regex} regexes outside the sublanguage (a non-empty sequence of atoms \\d \\w . [set] [^set] or a '
     'plain character, each with quantifier none + * ? {n} {n,} {,m} {n,m}) are classified Unsupported by the model and excluded',
     'Unicode classification of non-ASCII characters by \\w and \\d is an oracle computed with re itself per case; '
     'theorems hold for every oracle',
-    'route predicates are modelled as pure functions of (request method, match dictionary)',
+    'route predicates are modelled as pure functions of (request method, match dictionary, query parameters, X-Requested-With); '
+    'the VALUE a traverse= route stores under matchdict[\'traverse\'] (URL generation + traversal_path: C06 / C02) is not compared, '
+    'only the presence of the key and every captured entry',
+    "WebOb's parsing of the query string into request.params is not modelled: the model receives the (key, value) pairs the harness "
+    'urlencoded; params.get = last value is modelled (validated by correspondence)',
     'PATH_INFO is a WSGI latin-1 string (code points < 256)',
 ]
 TRUSTED = [
@@ -38,14 +47,15 @@ TRUSTED = [
     'hand-written model of the parts NOT translated: the pattern parser part of _compile_route (masked shape pin + '
     'regenerated string literals), Router.handle_request, RoutesMapper.__init__, update_pattern, the rest of add_route / '
     'route_prefix_context with the translated fragments cut out, the request chain of Router, get_routes_mapper, the predicate '
-    'list machinery of config/predicates.py and the predicate classes the runs use (shape pins)',
+    'list machinery of config/predicates.py and the predicate classes the runs use (shape pins: RequestParamPredicate.__init__ -- '
+    'hand-modelled as param_parse --, XHRPredicate, TraversePredicate, CustomPredicate, Notted, RequestMethodPredicate, HeaderPredicate)',
     "CPython re for the supported sublanguage and re.escape, WebOb's PATH_INFO decoding (modelled, validated by the "
     'correspondence run, not verified)',
 ]
 TECHNIQUE = ('control-flow model REGENERATED from the source on every run by a fail-closed Python-ast -> Gallina translator '
              '(RoutesMapper.__call__, RoutesMapper.connect, Route.__init__, the matcher closure of _compile_route, split_path_info, '
-             'decode_path_info, the listings get_routes / has_routes / get_route, the route-prefix fragments of Configurator.add_route / '
-             'route_prefix_context) + Coq proofs that the regenerated program equals the hand-written reference model and satisfies '
+             'decode_path_info, the listings get_routes / has_routes / get_route, RequestParamPredicate.__call__, the route-prefix '
+             'fragments of Configurator.add_route / route_prefix_context) + Coq proofs that the regenerated program equals the hand-written reference model and satisfies '
              'the property theorems + regenerated string facts + differential correspondence of the extracted regenerated program')
 LEVEL_TEXT = ('Machine-checked theorems for every pattern of the modelled sublanguage, every path and every route list: the '
               'backtracking matcher of the compiled pattern is sound, complete and greedy w.r.t. a declarative decomposition '
@@ -53,13 +63,18 @@ LEVEL_TEXT = ('Machine-checked theorems for every pattern of the modelled sublan
               'specification, and the program regenerated from RoutesMapper.__call__ / connect / Route.__init__ / the matcher '
               'closure / split_path_info on this run is proved equal to the reference model and to return exactly the first route '
               'in declaration order (last declaration of a name wins) whose pattern matches and whose predicates hold (none if no '
-              'route qualifies; URLDecodeError before any matching for invalid UTF-8), independently of earlier dispatches. The '
+              'route qualifies; URLDecodeError before any matching for invalid UTF-8), independently of earlier dispatches. Request '
+              'predicates: the regenerated RequestParamPredicate.__call__ holds iff every required key is present (last value) and every '
+              'required value, the empty one included, equals it; resolving request predicates on the request and dispatching with the '
+              'regenerated program equals the declarative specification; a traverse= route keeps every captured entry. The '
               'extracted regenerated program is run against RoutesMapper and Router.')
 LEVEL_NOTE = ('Trusted: Coq kernel; the translator and its primitive table (harness/c01/translate.py); the hand-written model of the '
               'pattern parser (masked pin + regenerated literals) and the link between the matcher closure\'s groupdict and the '
               'AST-level matcher (validated by correspondence); Python harness; re / re.escape / WebOb decoding modelled not '
               'verified; arbitrary user regexes inside {name:regex} are outside the model; Router.handle_request is pinned, not '
-              'translated; pregenerators and debug_routematch logging not covered.')
+              'translated; RequestParamPredicate.__init__ (param_parse), XHRPredicate, TraversePredicate are hand-modelled and pinned; the '
+              'value stored under matchdict[traverse] and header / accept / path_info predicates with satisfiable values are not modelled; '
+              'pregenerators and debug_routematch logging not covered.')
 
 facts = c01facts.facts
 
@@ -87,16 +102,31 @@ def valid(case):
                     return False
             for p in d['preds']:
                 if p[0] == 'const':
-                    if p[1] not in (0, 1):
+                    if p[1] not in (0, 1) or len(p) > 3:
                         return False
                 elif p[0] == 'method':
-                    if not isinstance(p[1], str):
+                    if not isinstance(p[1], str) or len(p) > 3:
                         return False
                 elif p[0] == 'eq':
-                    if not (isinstance(p[1], str) and isinstance(p[2], str)):
+                    if not (isinstance(p[1], str) and isinstance(p[2], str)) or len(p) > 4:
+                        return False
+                elif p[0] == 'param':
+                    if len(p) != 3 or p[1] not in (0, 1) or not p[2] or not all(isinstance(x, str) and x for x in p[2]):
+                        return False
+                elif p[0] == 'xhr':
+                    if len(p) != 3 or p[1] not in (0, 1) or p[2] not in (0, 1):
+                        return False
+                elif p[0] == 'traverse':
+                    # the traverse pattern may only use names the route pattern captures (else the generator raises KeyError)
+                    if len(p) != 2 or not isinstance(p[1], str) or not _traverse_ok(d['pattern'], p[1]):
                         return False
                 else:
                     return False
+                if p[0] in ('const', 'method', 'eq') and not isinstance(p[-1], (int, str)):
+                    return False
+        for rq in [case.get('req')] + [st.get('req') for st in case.get('history') or []]:
+            if rq is not None and not (rq['xhr'] in (0, 1) and all(isinstance(k, str) and isinstance(v, str) for k, v in rq['q'])):
+                return False
         if case['path'] is not None:
             if not isinstance(case['path'], str) or any(ord(c) > 255 for c in case['path']):
                 return False
@@ -115,6 +145,10 @@ def valid(case):
         return case['mode'] in ('mapper', 'router') and case['method'] in ('GET', 'POST')
     except Exception:
         return False
+
+
+_NAMES = G.NAMES
+_traverse_ok = G.traverse_ok
 
 
 # ------------------------------------------------------------ wire
@@ -145,17 +179,32 @@ def _oracle(case):
 
 
 def _pred_wire(p):
+    # the model sees whether a custom predicate holds; WHICH truthy / falsy Python value it answers with (the optional
+    # last element, an index into TRUTHY / FALSY) is the implementation's business
     if p[0] == 'const':
         return [0, int(p[1])]
     if p[0] == 'method':
         return [1, p[1]]
+    if p[0] == 'param':
+        return [3, int(p[1]), list(p[2])]
+    if p[0] == 'xhr':
+        return [4, int(p[1]), int(p[2])]
+    if p[0] == 'traverse':
+        return [6, p[1]]
     return [2, p[1], p[2]]
+
+
+def _req_wire(rq):
+    rq = rq or {'q': [], 'xhr': 0}
+    return [[[k, v] for k, v in rq['q']], int(rq['xhr'])]
 
 
 def _step_wire(st):
     if 'list' in st:
         op = st['list']
         return [1, int(op[1])] if op[0] == 'routes' else [2] if op[0] == 'has' else [3, op[1]]
+    if st.get('req') is not None:
+        return [[st['path']], st['method'], _req_wire(st['req'])]
     return [[st['path']], st['method']]
 
 
@@ -163,10 +212,8 @@ def to_wire(case):
     decls = [[d['name'], d['pattern'], int(d['static']), [_pred_wire(p) for p in d['preds']],
               list(d.get('levels') or []), int(d.get('inherit') or 0)] for d in case['decls']]
     raw = [] if case['path'] is None else [case['path']]
-    w = [_oracle(case), decls, raw, case['method'], 1 if case['mode'] == 'router' else 0]
-    if case.get('history'):
-        w.append([_step_wire(st) for st in case['history']])
-    return w
+    return [_oracle(case), decls, raw, case['method'], 1 if case['mode'] == 'router' else 0,
+            [_step_wire(st) for st in case.get('history') or []], _req_wire(case.get('req'))]
 
 
 def _canon_outcome(o):
@@ -218,17 +265,69 @@ def setup(tier):
                  Configurator=Configurator, Response=Response)
 
 
+class _Obj:
+    pass
+
+
+# what a custom predicate may answer with when it does not hold / holds (`return rx.match(..)`, `return d.get(..)`, ...)
+FALSY = [False, None, 0, '', (), [], {}, 0.0]
+TRUTHY = [True, 1, 'y', (0,), [0], {'a': 1}, 1.5, _Obj()]
+_BASELEN = {'const': 2, 'method': 2, 'eq': 3}
+
+
 def _mk_pred(p, ridx, calls):
     kind = p[0]
+    if kind in ('param', 'xhr', 'traverse'):
+        # the REAL predicate classes, built the way PredicateList.make builds them
+        from pyramid import predicates as P
+        if kind == 'param':
+            real = P.RequestParamPredicate(p[2][0] if len(p[2]) == 1 else tuple(p[2]), None)
+        elif kind == 'xhr':
+            real = P.XHRPredicate(bool(p[2]), None)
+        else:
+            real = P.TraversePredicate(p[1], None)
+        if kind != 'traverse' and p[1]:
+            real = P.Notted(real)
+
+        def counted(info, request):
+            calls.append(ridx)
+            return real(info, request)
+        return counted
+    flav = p[-1] if len(p) > _BASELEN[kind] else 0
 
     def pred(info, request):
         calls.append(ridx)
         if kind == 'const':
-            return bool(p[1])
-        if kind == 'method':
-            return request.method == p[1]
-        return info['match'].get(p[1]) == p[2]
+            b = bool(p[1])
+        elif kind == 'method':
+            b = request.method == p[1]
+        else:
+            b = info['match'].get(p[1]) == p[2]
+        return (TRUTHY if b else FALSY)[flav % len(FALSY)]
     return pred
+
+
+def _has_traverse(d):
+    return any(p[0] == 'traverse' for p in d['preds'])
+
+
+def _canon_traverse(case, idx, obs_dict):
+    """The VALUE stored under 'traverse' by a traverse= route is URL generation + traversal_path (C06 / C02), not this
+    property: it is replaced by the empty tuple (the model does the same); the key itself is kept."""
+    if 0 <= idx < len(case['decls']) and _has_traverse(case['decls'][idx]) \
+            and 'traverse' not in _NAMES.findall(case['decls'][idx]['pattern']):     # a captured 'traverse' is compared as it is
+        return sorted([[k, [1, []]] if k == 'traverse' else [k, v] for k, v in obs_dict])
+    return obs_dict
+
+
+def _environ_extra(environ, rq):
+    from urllib.parse import urlencode
+    rq = rq or {'q': [], 'xhr': 0}
+    environ['QUERY_STRING'] = urlencode([(k, v) for k, v in rq['q']])
+    if rq['xhr']:
+        environ['HTTP_X_REQUESTED_WITH'] = 'XMLHttpRequest'
+    else:
+        environ.pop('HTTP_X_REQUESTED_WITH', None)
 
 
 def _dict_obs(match):
@@ -283,16 +382,17 @@ def _run_mapper(case):
             sts.append('EXC:' + type(e).__name__)
     rl = [r._verif_idx for r in mapper.routelist]
     st = [r._verif_idx for r in mapper.static_routes]
-    def one(path, method, ops):
+    def one(path, method, ops, rq):
         environ = {'REQUEST_METHOD': method}
         if path is not None:
             environ['PATH_INFO'] = path
+        _environ_extra(environ, rq)
         request = _impl['Request'](environ)
         try:
             info = mapper(request)
             if info['route'] is None:
                 return [2]
-            out = [1, info['route']._verif_idx, _dict_obs(info['match'])]
+            out = [1, info['route']._verif_idx, _canon_traverse(case, info['route']._verif_idx, _dict_obs(info['match']))]
             _mutate(info['match'], ops)      # what a view (request.matchdict) or a predicate (info['match']) may do
             return out
         except _impl['URLDecodeError']:
@@ -305,9 +405,10 @@ def _run_mapper(case):
             return [5, int(bool(mapper.has_routes()))]
         r = mapper.get_route(op[1])
         return [6, [] if r is None else [r._verif_idx]]
-    hist = [listing(h['list']) if 'list' in h else one(h['path'], h['method'], h['mutate']) for h in case.get('history') or []]
+    hist = [listing(h['list']) if 'list' in h else one(h['path'], h['method'], h['mutate'], h.get('req') or case.get('req'))
+            for h in case.get('history') or []]
     del calls[:]
-    out = one(case['path'], case['method'], [])
+    out = one(case['path'], case['method'], [], case.get('req'))
     rl = [r._verif_idx for r in mapper.routelist]
     st = [r._verif_idx for r in mapper.static_routes]
     res = [sts, rl, st, out, _trace(calls)]
@@ -344,10 +445,22 @@ def _run_router(case):
         return Response(body=body.encode('utf-8'), content_type='application/json')
 
     def notfound(request):
-        return Response(body=b'{"name": null}', content_type='application/json')
+        mr = getattr(request, 'matched_route', None)
+        return Response(body=json.dumps({'name': None, 'matched': mr.name if mr is not None else None}).encode('utf-8'),
+                        content_type='application/json')
 
+    class Node:
+        # hybrid routes (traverse=, *traverse): traversal finds a resource for every name, so the route's view is found
+        def __init__(self, request=None):
+            pass
+
+        def __getitem__(self, name):
+            return Node()
+    allreq = [case.get('req')] + [h.get('req') for h in case.get('history') or []]
+    any_xhr = any(rq and rq['xhr'] for rq in allreq)
     try:
-        config = _impl['Configurator']()
+        hybrid = any(_has_traverse(d) or 'traverse' in d['pattern'] for d in case['decls'])
+        config = _impl['Configurator'](root_factory=Node) if hybrid else _impl['Configurator']()
         for i, d in enumerate(case['decls']):
             # real predicates where the model's predicate language allows it: exactly one method predicate ->
             # request_method= ; constants -> predicates of different kinds whose outcome is fixed for the requests of the
@@ -355,10 +468,21 @@ def _run_router(case):
             # custom predicates.  Kind order in the predicate list: xhr, request_method, request_param, header, custom.
             from pyramid.config import not_
             meth = [p for p in d['preds'] if p[0] == 'method']
-            real = {id(meth[0]): ('request_method', meth[0][1])} if len(meth) == 1 else {}
+            real = {id(meth[0]): ('request_method', meth[0][1])} if len(meth) == 1 and len(meth[0]) == 2 else {}
             kinds_free = [('xhr', True), ('request_param', 'zz_nope'), ('header', 'X-Nope')]
+            for p in d['preds']:
+                # request predicates proper: the real request_param= / xhr= / traverse= arguments
+                if p[0] == 'param':
+                    v = p[2][0] if len(p[2]) == 1 else tuple(p[2])
+                    real[id(p)] = ('request_param', not_(v) if p[1] else v)
+                elif p[0] == 'xhr':
+                    real[id(p)] = ('xhr', not_(bool(p[2])) if p[1] else bool(p[2]))
+                elif p[0] == 'traverse':
+                    real[id(p)] = ('traverse', p[1])
+            taken = set(k for k, _ in real.values())
+            kinds_free = [kf for kf in kinds_free if kf[0] not in taken and not (kf[0] == 'xhr' and any_xhr)]
             for j, p in enumerate(d['preds']):
-                if p[0] == 'const' and kinds_free:
+                if p[0] == 'const' and len(p) == 2 and kinds_free:
                     kname, falseval = kinds_free.pop((i + j) % len(kinds_free))
                     # falseval is a predicate value that does NOT hold for the harness's requests
                     real[id(p)] = (kname, not_(falseval) if p[1] else falseval)
@@ -385,17 +509,18 @@ def _run_router(case):
     def start_response(status, headers, exc_info=None):
         pass
 
-    def one(path, method, ops):
+    def one(path, method, ops, rq):
         environ = WRequest.blank('/').environ
         environ['REQUEST_METHOD'] = method
         environ['PATH_INFO'] = path
+        _environ_extra(environ, rq)
         cur['ops'] = ops
         try:
             body = b''.join(app(environ, start_response))
             j = json.loads(body.decode('utf-8'))
             if j['name'] is None:
-                return [2]
-            return [1, seen[j['name']], j['match']]
+                return [2] if not j.get('matched') else ['route-matched-but-no-view', j['matched']]
+            return [1, seen[j['name']], _canon_traverse(case, seen[j['name']], j['match'])]
         except _impl['URLDecodeError']:
             return [0]
     def listing(op):
@@ -405,8 +530,9 @@ def _run_router(case):
             return [5, int(bool(mapper.has_routes()))]
         r = mapper.get_route(op[1])
         return [6, [] if r is None else [seen[r.name]]]
-    hist = [listing(h['list']) if 'list' in h else one(h['path'], h['method'], h['mutate']) for h in case.get('history') or []]
-    out = one(case['path'], case['method'], [])
+    hist = [listing(h['list']) if 'list' in h else one(h['path'], h['method'], h['mutate'], h.get('req') or case.get('req'))
+            for h in case.get('history') or []]
+    out = one(case['path'], case['method'], [], case.get('req'))
     rl = [seen[r.name] for r in mapper.routelist]
     st = [seen[r.name] for r in mapper.static_routes]
     res = [[], rl, st, out, []]
@@ -510,6 +636,28 @@ def kinds(case, obs):
         k.append('has-static')
     if len(set(d['name'] for d in case['decls'])) < len(case['decls']):
         k.append('dup-names')
+    allp = [p for d in case['decls'] for p in d['preds']]
+    if any(p[0] == 'param' for p in allp):
+        k.append('pred-request_param')
+        if any(p[0] == 'param' and any(_param_empty(v) for v in p[2]) for p in allp):
+            k.append('pred-request_param-empty-required-value')
+            q = dict((case.get('req') or {'q': []})['q'])
+            if any(p[0] == 'param' and any(_param_empty(v) and q.get(v.split('=')[0].strip()) for v in p[2]) for p in allp):
+                k.append('pred-request_param-empty-required-but-nonempty-given')
+        if any(p[0] == 'param' and p[1] for p in allp):
+            k.append('pred-request_param-negated')
+    if any(p[0] == 'xhr' for p in allp):
+        k.append('pred-xhr')
+    if (case.get('req') or {}).get('q'):
+        k.append('request-with-query')
+    if any(p[0] in _BASELEN and len(p) > _BASELEN[p[0]] and p[-1] % len(FALSY) for p in allp):
+        k.append('pred-custom-nonbool-answer')
+    if any(p[0] == 'traverse' for p in allp):
+        k.append('pred-traverse')
+        if out[0] == 1 and _has_traverse(case['decls'][out[1]]):
+            k.append('traverse-route-selected')
+            if any(v != [1, []] and (v[0] == 1 or any(c in v[1] for c in ' %') or any(ord(c) > 127 for c in v[1])) for _, v in out[2]):
+                k.append('traverse-route-selected-with-quotable-capture')
     if any(d.get('levels') for d in case['decls']):
         k.append('route-prefix')
         if any(d.get('levels') and d['pattern'].endswith('/') and d['pattern'].strip('/') for d in case['decls']):
@@ -529,6 +677,10 @@ def kinds(case, obs):
         k.append('gen-unsupported-regex')
     k.append('routes-%d' % len(case['decls']))
     return k
+
+
+def _param_empty(v):
+    return v.rstrip().endswith('=') and v.strip() != '='
 
 
 def describe(case):
